@@ -508,5 +508,52 @@ func runC06(c *Ctx) {
 		}
 		k.flush()
 	})
+	// (4) the caller owns what a writer returns: scribbling over a returned text,
+	// up to its capacity, must not change what is written afterwards
+	{
+		type wv struct {
+			v int64
+			e uint32
+		}
+		var cases []wv
+		for v := int64(-120); v <= 1200; v++ {
+			for e := uint32(0); e <= 3; e++ {
+				cases = append(cases, wv{v, e})
+			}
+		}
+		scribble := func(b []byte) {
+			b = b[:cap(b)]
+			for i := range b {
+				b[i] = 'X'
+			}
+		}
+		for _, cs := range cases {
+			if b, err := num.MakeAmount(cs.v, cs.e).MarshalText(); err == nil {
+				scribble(b)
+				_ = append(b[:0], "ZZZZZZZZZZZZZZZZ"...)
+			}
+			if b, err := num.MakePercentage(cs.v, cs.e).MarshalText(); err == nil {
+				scribble(b)
+			}
+		}
+		for _, cs := range cases {
+			want := dec.New(cs.v, int(cs.e)).String()
+			a := num.MakeAmount(cs.v, cs.e)
+			b, _ := a.MarshalText()
+			j, _ := json.Marshal(a)
+			c.R.Cases(1, 1)
+			if string(b) != want || string(j) != `"`+want+`"` || a.String() != want {
+				c.R.Fail("writes:returned-text-shared", fmt.Sprintf("after earlier results of the writers were overwritten by their caller, units=%d exp=%d is written %q / %s / %q (exact %q)", cs.v, cs.e, b, j, a.String(), want), map[string]any{"units": cs.v, "exp": cs.e})
+				break
+			}
+			pt := num.MakePercentage(cs.v, cs.e)
+			pb, _ := pt.MarshalText()
+			if string(pb) != pt.String() {
+				c.R.Fail("writes:returned-text-shared:pct", fmt.Sprintf("Percentage units=%d exp=%d: MarshalText %q vs String %q after earlier results were overwritten", cs.v, cs.e, pb, pt.String()), map[string]any{"units": cs.v, "exp": cs.e})
+				break
+			}
+		}
+		c.R.Count("writer_results_overwritten_by_caller", int64(2*len(cases)))
+	}
 	c.R.Sample(map[string]any{"write": "units=-5 exp=3", "text": num.MakeAmount(-5, 3).String(), "percentage_text": num.MakePercentage(-5, 3).String()})
 }
